@@ -23,7 +23,10 @@ TRUSTED = ["qhull / scipy optimisers are not modelled: each output is certified 
            "accepted certificate is a proof of minimality, a missing one is reported as 'not shown minimal'",
            "float64 -> rational conversion by float.as_integer_ratio"]
 ASSUMPTIONS = ["tolerances: hull planes 1e-9, rigidity 1e-9, box / sphere 1e-6, cylinder 1e-5, each times the scale "
-               "of the coordinates; sphere minimality is judged only for gaussian clouds (general position)"]
+               "of the coordinates; sphere minimality is judged only for gaussian clouds (general position)",
+               "a vertex no face uses counts as part of the geometry for the hull and the volumes built on it (they are computed "
+               "from all vertices); Trimesh.bounds is documented as the bounds of the faces, so axis-aligned queries are not "
+               "judged on meshes with such a vertex"]
 EXPLANATION = "Lean theorems C16_* (checker soundness, convexity, minimality certificate) + checkers run on real outputs"
 
 STATS = {}
@@ -33,7 +36,7 @@ def _st(k, n=1):
     STATS[k] = STATS.get(k, 0) + n
 
 
-KINDS = ["random", "lattice", "cluster", "flat", "scaled", "far", "sphere", "cyl", "long", "torus", "ell"]
+KINDS = ["random", "lattice", "cluster", "flat", "scaled", "far", "sphere", "cyl", "long", "torus", "ell", "dented", "loose"]
 QUERIES = ["hull", "aabb", "obb", "obb_opts", "apply_obb", "sphere", "cylinder"]
 
 
@@ -68,7 +71,22 @@ def geometry(c):
     import trimesh
     from trimesh import transformations as tf
     g = np.random.default_rng(c["seed"] + 7)
-    if c["cloud"] in ("torus", "ell"):
+    if c["cloud"] in ("dented", "loose"):
+        # meshes that pass the tolerance test `is_convex` without being their own hull: a subdivided box with one
+        # vertex inside a face pushed in by a few millionths of its size, and a box carrying a vertex no face uses
+        box = trimesh.creation.box(extents=np.array([2.0, 1.0, 3.0]) * float(g.choice([1.0, 1e-2, 40.0])))
+        if c["cloud"] == "dented":
+            box = box.subdivide().subdivide()
+            V = np.array(box.vertices)
+            ext = box.extents
+            inside = np.nonzero((np.abs(np.abs(V) - ext / 2) < 1e-12 * ext.max()).sum(axis=1) == 1)[0]
+            k_ = int(inside[int(g.integers(len(inside)))])
+            V[k_] -= np.sign(V[k_]) * (np.abs(np.abs(V[k_]) - ext / 2) < 1e-12 * ext.max()) * 5e-6 * ext.max()
+            geom = trimesh.Trimesh(V, np.array(box.faces), process=False)
+        else:
+            V = np.vstack([np.array(box.vertices), box.extents * [1.5, 0.1, -0.2]])
+            geom = trimesh.Trimesh(V, np.array(box.faces), process=False)
+    elif c["cloud"] in ("torus", "ell"):
         from props import C03
         if c["cloud"] == "torus":
             V, F = C03._torus_blocks()
@@ -107,6 +125,10 @@ def cases(ctx):
             for asx in ("cloud", "hullmesh"):
                 yield {"cloud": kind, "seed": 12, "query": q, "move": True, "as": asx, "before": "sphere", "mirror": False}
                 yield {"cloud": kind, "seed": 12, "query": q, "move": True, "as": asx, "before": "hull", "mirror": True}
+    for kind in ("dented", "loose"):
+        for q in ("hull", "obb", "cylinder", "sphere"):
+            for mv in (False, True):
+                yield {"cloud": kind, "seed": 31, "query": q, "move": mv, "as": "cloud", "before": None, "mirror": False}
     for k in range(2, 7):
         for mv in (False, True):
             yield {"cloud": "cluster", "seed": 20 + k, "query": "hull", "move": mv, "as": "cloud", "spread": 10.0 ** -k}
@@ -125,6 +147,9 @@ def cases(ctx):
             continue
         kind = rng.choice(KINDS)
         q = rng.choice(QUERIES)
+        if kind == "loose" and q in ("aabb", "apply_obb"):
+            # `Trimesh.bounds` is documented as the bounds of the faces: a vertex no face uses is outside its contract
+            q = "hull"
         c = {"cloud": kind, "seed": rng.randrange(10 ** 6), "query": q, "move": rng.random() < 0.5,
              "as": rng.choice(["cloud", "hullmesh"]), "before": rng.choice([None, None, "sphere", "hull", "obb", "cyl"]),
              "mirror": rng.random() < 0.25}
